@@ -12,7 +12,7 @@
 (* by the operational spec) and in trace validation (events recorded from  *)
 (* the implementation).                                                     *)
 (***************************************************************************)
-EXTENDS Integers, Sequences, FiniteSets, TLC
+EXTENDS Integers, Sequences, FiniteSets, TLC, DagAlgo
 
 CONSTANT EdgeReinsertMovesToBack  \* TRUE: DAG::add_edge on an existing edge moves the child to the back (defect F1)
 
@@ -71,6 +71,9 @@ IsResDep(d)  == d.k \in {"rd", "wr"}
 (*   known    task nodes in creation order                                  *)
 (*   estk     tasks currently executing (innermost last)                    *)
 (*   queue    scheduled tasks of the running bottom-up build                *)
+(*   rank     topological rank of every node of the store's DAG (task t is  *)
+(*            node t, resource r is node nt + r), maintained as             *)
+(*            pie_graph::DAG does (DagAlgo.tla)                              *)
 (***************************************************************************)
 StoreInit(nt, nr, init) ==
   [res   |-> [r \in 1..nr |-> init[r]],
@@ -80,12 +83,26 @@ StoreInit(nt, nr, init) ==
    incr  |-> [r \in 1..nr |-> <<>>],
    known |-> <<>>,
    estk  |-> <<>>,
-   queue |-> {}]
+   queue |-> {},
+   rank  |-> <<>>,
+   justReq |-> 0]        \* the task whose require_start was the previous event (0 otherwise)
 
 Tasks(st) == DOMAIN st.out
 Ress(st)  == DOMAIN st.res
 
 Cur(st) == IF st.estk = <<>> THEN 0 ELSE Last(st.estk)
+
+\* ---- the DAG behind the store: nodes, adjacency in iteration order, ranks
+NTasks(st) == Cardinality(DOMAIN st.out)
+RNode(st, r) == NTasks(st) + r
+DepNode(st, d) == IF d.k \in {"rq", "rsv"} THEN d.x ELSE RNode(st, d.x)
+NodeAdd(st, n) == IF n \in DOMAIN st.rank THEN st ELSE [st EXCEPT !.rank = (n :> (Cardinality(DOMAIN st.rank) + 1)) @@ @]
+GView(st) ==
+  LET nt == NTasks(st)
+      N == DOMAIN st.rank
+  IN [order |-> st.rank,
+      kids |-> [n \in N |-> IF n <= nt THEN [i \in DOMAIN st.deps[n] |-> DepNode(st, st.deps[n][i])] ELSE <<>>],
+      pars |-> [n \in N |-> IF n <= nt THEN st.inct[n] ELSE st.incr[n - nt]]]
 
 \* index of the edge from t to target x of node class `task` (0 if none)
 EdgeIdx(st, t, task, x) ==
@@ -114,9 +131,13 @@ AddEdge(st, t, d) ==
      THEN IF EdgeReinsertMovesToBack
           THEN [st EXCEPT !.deps[t] = Append(RemoveAt(@, i), st.deps[t][i])]
           ELSE st
-     ELSE IF task
-          THEN [st EXCEPT !.deps[t] = Append(@, d), !.inct[d.x] = Append(@, t)]
-          ELSE [st EXCEPT !.deps[t] = Append(@, d), !.incr[d.x] = Append(@, t)]
+     ELSE LET st1 == IF task
+                     THEN [st EXCEPT !.deps[t] = Append(@, d), !.inct[d.x] = Append(@, t)]
+                     ELSE [st EXCEPT !.deps[t] = Append(@, d), !.incr[d.x] = Append(@, t)]
+              dst == DepNode(st, d)
+          IN IF t \in DOMAIN st1.rank /\ dst \in DOMAIN st1.rank
+             THEN [st1 EXCEPT !.rank = RanksAfterEdge(GView(st1), t, dst)]     \* Pearce-Kelly reordering of the affected region
+             ELSE st1
 
 \* Store::reset_task: drop output and all outgoing edges
 RECURSIVE DropIncoming(_, _, _)
@@ -140,6 +161,14 @@ WriterOf(st, r) ==
 AllWriters(st, r) == {t \in Range(st.incr[r]) : DepOnRes(st, t, r).k = "wr"}
 ReadersOf(st, r) == SelectSeq(st.incr[r], LAMBDA t : DepOnRes(st, t, r).k = "rd")
 
+\* the nodes in ascending rank, tasks as t and resources as 100 + r (what the store dump reports)
+RECURSIVE RankSeqR(_, _)
+RankSeqR(st, N) ==
+  IF N = {} THEN <<>>
+  ELSE LET n == CHOOSE x \in N : \A y \in N : st.rank[x] <= st.rank[y]
+       IN <<IF n <= NTasks(st) THEN n ELSE 100 + (n - NTasks(st))>> \o RankSeqR(st, N \ {n})
+RankSeq(st) == RankSeqR(st, DOMAIN st.rank)
+
 KnownAdd(st, u) == IF u \in Range(st.known) THEN st ELSE [st EXCEPT !.known = Append(@, u)]
 
 (***************************************************************************)
@@ -148,7 +177,7 @@ KnownAdd(st, u) == IF u \in Range(st.known) THEN st ELSE [st EXCEPT !.known = Ap
 (* are total: malformed events (e.g. an end without a start) leave the     *)
 (* store unchanged and are reported by the monitors.                       *)
 (***************************************************************************)
-StoreStep(st, e) ==
+StoreStep0(st, e) ==
   CASE e.ev = "ext_set" -> [st EXCEPT !.res[e.r] = e.v]
     [] e.ev = "res_set" -> IF e.r \in Ress(st) THEN [st EXCEPT !.res[e.r] = e.v] ELSE st
     [] e.ev = "sess_start" -> [st EXCEPT !.estk = <<>>, !.queue = {}]
@@ -156,14 +185,17 @@ StoreStep(st, e) ==
     [] e.ev \in {"root_panic", "bu_panic"} -> [st EXCEPT !.estk = <<>>, !.queue = {}]
     [] e.ev = "exec_start" ->
          IF e.t \notin Tasks(st) THEN st
-         ELSE LET st1 == ResetTask(KnownAdd(st, e.t), e.t)
-              IN [st1 EXCEPT !.estk = Append(@, e.t), !.queue = @ \ {e.t}]
+         ELSE LET st1 == ResetTask(NodeAdd(KnownAdd(st, e.t), e.t), e.t)
+                  \* a task without output that is required is executed as new WITHOUT being taken from the queue
+                  \* (bottom_up.rs make_task_consistent); every other execution of a bottom-up build is a pop
+                  asNew == st.out[e.t] = NONE /\ st.justReq = e.t
+              IN [st1 EXCEPT !.estk = Append(@, e.t), !.queue = IF asNew THEN @ ELSE @ \ {e.t}]
     [] e.ev = "exec_end" ->
          IF e.t \notin Tasks(st) \/ Cur(st) # e.t THEN st
          ELSE [st EXCEPT !.out[e.t] = e.o, !.estk = Front(@)]
     [] e.ev = "require_start" ->
          IF e.t \notin Tasks(st) THEN st
-         ELSE LET st1 == KnownAdd(st, e.t)
+         ELSE LET st1 == NodeAdd(KnownAdd(st, e.t), e.t)
                   c == Cur(st)
               IN IF c = 0 \/ c = e.t \/ Reach(st1, e.t, c) THEN st1   \* root require, or rejected as a cycle
                  ELSE AddEdge(st1, c, [k |-> "rsv", x |-> e.t, c |-> "", s |-> 0])
@@ -179,7 +211,12 @@ StoreStep(st, e) ==
          IF Cur(st) = 0 \/ e.r \notin Ress(st) THEN st
          ELSE AddEdge(st, Cur(st), [k |-> "wr", x |-> e.r, c |-> e.c, s |-> e.s])
     [] e.ev = "schedule" -> IF e.t \in Tasks(st) THEN [st EXCEPT !.queue = @ \cup {e.t}] ELSE st
+    [] e.ev \in {"read_start", "write_start"} ->          \* get_or_create_resource_node
+         IF Cur(st) # 0 /\ e.r \in Ress(st) THEN NodeAdd(st, RNode(st, e.r)) ELSE st
+    [] e.ev = "sched_by_res_start" -> IF e.r \in Ress(st) THEN NodeAdd(st, RNode(st, e.r)) ELSE st
     [] OTHER -> st
+
+StoreStep(st, e) == [StoreStep0(st, e) EXCEPT !.justReq = IF e.ev = "require_start" THEN e.t ELSE 0]
 
 (***************************************************************************)
 (* The from-scratch oracle: what executing the given roots on an empty     *)
